@@ -43,7 +43,11 @@ Inductive case :=
 (* configurations loaded one after the other in ONE process: for every step the class of that configuration
    loaded alone in a fresh process, and its class in the sequence (0 accepted, 1 rejected, 2 panic, 3 hang,
    4 not run because the process was wedged) *)
-| CSeq (steps : list (N * N)).
+| CSeq (steps : list (N * N))
+(* a whole file of several server blocks (the same directive line possibly in effect in several of them, written
+   out or through a snippet imported more than once): class of every block loaded as a file of its own (validate
+   mode), and of the whole file in validate and in execute mode *)
+| CConfSites (persite : list N) (validate execute : N).
 
 Definition judge (c : case) : N :=
   match c with
@@ -62,6 +66,14 @@ Definition judge (c : case) : N :=
       let known := forallb (fun c => (c <? 2)%N) perkey in
       let agree := negb known ||
                    ((v =? predict_block false perkey)%N && (x =? predict_block true perkey)%N) in
+      verdict agree ((v <? 2)%N && (x <? 2)%N && (v =? x)%N)
+  | CConfSites persite v x =>
+      (* model: the blocks are set up in order, each does what it does alone, the first rejected one ends the load,
+         in BOTH modes (C11_predict_sites_first_rejected); spec: no panic, no hang, the modes agree - however often
+         a line is in effect within the load *)
+      let known := forallb (fun c => (c <? 2)%N) persite in
+      let agree := negb known ||
+                   ((v =? predict_sites false persite)%N && (x =? predict_sites true persite)%N) in
       verdict agree ((v <? 2)%N && (x <? 2)%N && (v =? x)%N)
   | CSeq steps =>
       (* model: what a configuration does depends on the process-global state only up to what setups cannot tell
